@@ -151,8 +151,15 @@ def step (line : String) : String :=
       | .ok r =>
         let sEnd := runToRest .libFirst 600 r.s
         ("conf=ok", if allReturned sEnd && goroutinesDone sEnd && !sEnd.panicked then "ok" else "hang")
+    -- the LTS's `checkFlag` step is the test-and-set of `vx.closed` inside ONE critical section of closeMu; that
+    -- is a fact of the source (`closeGuardedOf skeleton_Close`, theorem close_guarded).  Without it two
+    -- overlapping Close calls both get past the check and `close(chQuit)` runs twice: the model then predicts the panic
+    let guarded := closeGuardedOf Gen.Conc.skeleton_Close
+    let pred := if kind == "dbl" && !guarded then "panic" else pred
+    let conf := if kind == "dbl" && !guarded then "conf=ok" else conf
     let verdict :=
       if out == "ok" then "ok"
+      else if out == "panic" then s!"FAIL forced schedule {kind}: Close panicked (two overlapping Close calls both got past the closed check: close of closed channel)"
       else if out == "leak" then s!"FAIL forced schedule {kind}: a library goroutine is left after Close returned"
       else if kind == "sig" then s!"FAIL Close from the input goroutine's signal arm never completes with sequences pending (forced schedule, {out})"
       else if kind == "full" then s!"FAIL Close never returns while the event queue is full and input is pending (forced schedule, {out})"
